@@ -38,6 +38,12 @@ ADOPT = {'C01.outcome': 'C14.inconsistent_after_caught_fault', 'C01.tree': 'C14.
 KMAX = 20
 
 
+def program_strategy(cfg, cache):
+    # forests with several nested outputs per reusable entry (partial application of cached subtrees) + general programs
+    tree_cfg = dict(cfg, chain_p=0.3, max_funcs=6, raise_w=0, nowrite_p=0.0, tree_queries=1)
+    return st.one_of(gen.program(cfg, cache), gen.tree_program(tree_cfg, cache))
+
+
 def drive(draw, h, cfg):
     names = list(h.prog_rel['funcs'])
     univ = cfg['universe']
